@@ -287,6 +287,26 @@ pub fn run(ctx: &Ctx) -> Report {
     for ops in &corpus {
         check_seq(&mut rep, &mut model, ops, &Cfg::make(&mut rng, 3));
     }
+    // wide sequences: many files open at once (17, 20, 40), closed oldest first / newest first / at random /
+    // evens then odds, with appends to the files still open in between and a few refused calls on ended ids
+    for (wi, n) in [17usize, 20, 40, 20, 33].into_iter().enumerate() {
+        let mut ops: Vec<Op> = (0..n).map(|i| Op::Start(format!("w{i}"))).collect();
+        for i in 0..n { ops.push(Op::Append { id: i as u64, size: 3, src: rng.bytes(3, 3) }); }
+        let mut order: Vec<usize> = (0..n).collect();
+        match wi % 4 { 0 => {}, 1 => order.reverse(), 2 => { for i in (1..n).rev() { order.swap(i, rng.below(i as u64 + 1) as usize); } }, _ => { order.sort_by_key(|i| (i % 2, *i)); } }
+        let mut open: Vec<usize> = (0..n).collect();
+        for (k, id) in order.iter().enumerate() {
+            ops.push(Op::End(*id as u64));
+            open.retain(|x| x != id);
+            if k % 3 == 0 { ops.push(Op::Append { id: *id as u64, size: 2, src: vec![1, 2] }); } // refused: ended
+            if let Some(o) = open.last() { ops.push(Op::Append { id: *o as u64, size: 4, src: rng.bytes(4, 3) }); }
+            if let Some(o) = open.first() { ops.push(Op::Append { id: *o as u64, size: 1, src: rng.bytes(1, 3) }); }
+        }
+        ops.push(Op::Finalize);
+        rep.count("wide-sequence");
+        check_seq(&mut rep, &mut model, &ops, &Cfg::make(&mut rng, (wi % 4) as u8));
+        if rep.full() { return rep; }
+    }
     // exhaustive short sequences
     let maxlen = if ctx.thorough { 4 } else { 3 };
     let mut count = 0u64;
